@@ -137,6 +137,9 @@ type CAServerSpec struct {
 	Behaviour string
 	Code      int
 	KeyText   string // reply of a signing server
+	// Later, when non-empty, is the behaviour from the second round on (see CAGroup.Round).
+	Later     string
+	LaterCode int
 	MinTLS    uint16
 	MaxTLS    uint16
 	// ClientAuth: none | request | require
@@ -162,6 +165,7 @@ type CAServer struct {
 	Seen []CASeen
 	seq  *int
 	smu  *sync.Mutex
+	grp  *CAGroup
 }
 
 // PostUserSSHCertificate implements the signing RPC.
@@ -182,9 +186,13 @@ func (s *CAServer) PostUserSSHCertificate(ctx context.Context, req *pb.SSHCertif
 	s.mu.Lock()
 	s.Seen = append(s.Seen, seen)
 	s.mu.Unlock()
-	switch s.Spec.Behaviour {
+	behaviour, code := s.Spec.Behaviour, s.Spec.Code
+	if s.grp != nil && s.grp.Round() > 0 && s.Spec.Later != "" {
+		behaviour, code = s.Spec.Later, s.Spec.LaterCode
+	}
+	switch behaviour {
 	case "rpcerr":
-		return nil, status.Error(codes.Code(s.Spec.Code), "verif: scripted failure")
+		return nil, status.Error(codes.Code(code), "verif: scripted failure")
 	case "empty":
 		return &pb.SSHKey{Key: ""}, nil
 	case "unparsable":
@@ -212,6 +220,20 @@ type CAGroup struct {
 	Servers []*CAServer
 	seq     int
 	smu     sync.Mutex
+	round   int
+}
+
+// Round / SetRound: the round number selects Behaviour (0) or Later (>= 1) of every endpoint.
+func (g *CAGroup) Round() int {
+	g.smu.Lock()
+	defer g.smu.Unlock()
+	return g.round
+}
+
+func (g *CAGroup) SetRound(r int) {
+	g.smu.Lock()
+	g.round = r
+	g.smu.Unlock()
 }
 
 // StartCAGroup starts the endpoints (those with Behaviour "nolistener" are left unbound).
@@ -227,7 +249,7 @@ func StartCAGroup(specs []CAServerSpec) (*CAGroup, error) {
 		g := &CAGroup{Port: port}
 		ok := true
 		for _, sp := range specs {
-			s := &CAServer{Spec: sp, seq: &g.seq, smu: &g.smu}
+			s := &CAServer{Spec: sp, seq: &g.seq, smu: &g.smu, grp: g}
 			g.Servers = append(g.Servers, s)
 			if sp.Behaviour == "nolistener" {
 				continue
